@@ -107,6 +107,7 @@ package heap
 //@   before (*Heap).up assert bnd(len(h.Slice))
 //@   requires h != nil && swo(h) && heapOK(h, len(h.Slice))
 //@   ensures [C11.push.order] heapOK(h, len(h.Slice)) && len(h.Slice) == old(len(h.Slice)) + 1 && h.Less == old(h.Less)
+//@   ensures [C11.push.nodup~nd] old(noDup(h, len(h.Slice))) && (forall k int :: 0 <= k && k < old(len(h.Slice)) ==> old(h.Slice[k]) != item) ==> noDup(h, len(h.Slice))
 //@   modifies h.Slice, elems(h.Slice)
 
 // Pop: removes and returns the root, heap order kept
@@ -114,6 +115,8 @@ package heap
 //@   functype Heap.Less pure
 //@   requires h != nil && swo(h) && len(h.Slice) > 0 && heapOK(h, len(h.Slice))
 //@   ensures [C11.pop.order] heapOK(h, len(h.Slice)) && len(h.Slice) == old(len(h.Slice)) - 1 && result == old(h.Slice[0]) && h.Less == old(h.Less)
+//@   ensures [C11.pop.nodup~nd] old(noDup(h, len(h.Slice))) ==> noDup(h, len(h.Slice))
+//@   ensures [C11.pop.from~mv]  forall k int :: 0 <= k && k < len(h.Slice) ==> exists l int :: 1 <= l && l < old(len(h.Slice)) && h.Slice[k] == old(h.Slice[l])
 //@   modifies h.Slice, elems(h.Slice)
 
 // Remove(i): removes and returns exactly the element at i, heap order kept
